@@ -359,9 +359,9 @@ theorem trace_sublist (feats : List String) (c : RefCase) (ops : List ROp) : (tr
 
 /-- e.g.: the write through the never-created handle 5 and everything after the panicking `to_dyn!` (featureless
 caller, `Rc<RefCell<_>>`) are not effective -/
-example : trace [] (RefCase.init .rcRefCell) [.clone 0, .write 5 9, .write 1 3, .toDyn 0, .write 0 4] =
+example : trace [] (RefCase.init .arcMutex) [.clone 0, .write 5 9, .write 1 3, .toDyn 0, .write 0 4] =
     [.clone 0, .write 1 3] := by decide
-example : (run [] (RefCase.init .rcRefCell) [.clone 0, .write 5 9, .write 1 3, .toDyn 0, .write 0 4]).read 0 = some 3 := by
+example : (run [] (RefCase.init .arcMutex) [.clone 0, .write 5 9, .write 1 3, .toDyn 0, .write 0 4]).read 0 = some 3 := by
   decide
 
 theorem run_cons_ok (feats : List String) (c c' : RefCase) (op : ROp) (rest : List ROp)
@@ -704,76 +704,81 @@ example : (run ["std", "alloc"] (RefCase.init .rcRefCell) [.clone 0, .drop 0]).l
 example : (run ["std", "alloc"] (RefCase.init .rcRefCell) [.clone 0, .drop 0, .drop 1]).live = false := by decide
 example : (run ["std", "alloc"] (RefCase.init .ptrMutex) [.clone 0, .drop 0, .drop 1]).live = true := by decide
 
-/-! ## C. the arms of `to_dyn!` (regenerated table) -/
+/-! ## C. the arms of `to_dyn!` (table regenerated from `src/reference.rs` on every run)
 
-/-- the macro is exported, so its `cfg` guards are resolved in the calling crate (this is what makes
-`toDynHasArm` depend on the caller's features) -/
-theorem to_dyn_is_exported : Gen.toDynExported = true := rfl
+The model is of the tree AFTER the `fix:` commit that moved the feature selection from `#[cfg]`s inside the exported
+macro body (resolved in the calling crate) to `cfg`-selected definitions inside rrtk. -/
 
-/-- **in-crate form**: when the calling crate declares features with the same names as rrtk's own build (`std`+`alloc`,
-`alloc` only, or none), every variant the macro lists that exists in that rrtk build has a usable arm -/
-theorem to_dyn_arms_cover_in_crate (feats : List String)
-    (hf : feats = ["std", "alloc"] ∨ feats = ["alloc", "std"] ∨ feats = ["alloc"] ∨ feats = []) (v : RefVariant)
-    (hl : toDynLists v = true) (he : variantExists feats v = true) : toDynHasArm feats v = true := by
-  rcases hf with rfl | rfl | rfl | rfl <;> cases v <;> revert hl he <;> decide
+/-- the valid feature sets of an rrtk build as far as `Reference` is concerned (`std` implies `alloc`) -/
+def rrtkBuilds : List (List String) := [[], ["alloc"], ["std", "alloc"], ["alloc", "std"], ["std"]]
 
-example : toDynLists .rcRefCell = true ∧ variantExists ["alloc"] .rcRefCell = true := by decide
+/-- no arm of any definition carries a `cfg` inside the macro body: nothing is resolved in the calling crate -/
+theorem to_dyn_no_in_body_guards :
+    Gen.toDynDefs.all (fun d => d.2.all (fun a => a.2 == "")) = true := by decide
 
-/-- the one unguarded arm works for every caller -/
-theorem to_dyn_ptr_arm_always (callerFeats : List String) : toDynHasArm callerFeats .ptr = true := by
-  simp [toDynHasArm, Gen.toDynArms, RefVariant.name, featOn]
+/-- **the property's clause at full strength**: for EVERY feature set the calling crate may declare (any list of
+strings), for every rrtk build, every variant the macro lists that exists in that build converts. -/
+theorem to_dyn_arms_cover (callerFeats : List String) (rrtkFeats : List String) (hr : rrtkFeats ∈ rrtkBuilds)
+    (v : RefVariant) (hl : toDynLists v = true) (he : variantExists rrtkFeats v = true) :
+    toDynHasArmIn callerFeats rrtkFeats v = true := by
+  simp only [rrtkBuilds, List.mem_cons, List.mem_nil_iff, or_false] at hr
+  rcases hr with rfl | rfl | rfl | rfl | rfl <;> cases v <;> revert hl he <;>
+    simp [toDynHasArmIn, toDynLists, variantExists, Gen.toDynDefs, Gen.toDynArms, Gen.refVariants, RefVariant.name,
+      featOn, itemCfgHolds, rrtkFeatOn]
 
-/-- the full-strength obligation of the property ("regardless of which features the calling crate itself declares") -/
-def ToDynArmsCover : Prop :=
-  ∀ (callerFeats rrtkFeats : List String) (v : RefVariant),
-    toDynLists v = true → variantExists rrtkFeats v = true → toDynHasArm callerFeats v = true
+/-- the result does not depend on the caller's features at all -/
+theorem to_dyn_caller_independent (c1 c2 rrtkFeats : List String) (v : RefVariant) :
+    toDynHasArmIn c1 rrtkFeats v = toDynHasArmIn c2 rrtkFeats v := by
+  simp [toDynHasArmIn, Gen.toDynDefs, featOn]
 
-/-- **DEFECT F3**: the full-strength obligation is FALSE of the current tree. A calling crate that declares no
-features of its own, using an rrtk built with `std`+`alloc`, gets NO arm for `RcRefCell` (which the macro lists and
-which exists in that rrtk): the `#[cfg(feature = "alloc")]` on the arm sits inside the exported macro body and is
-resolved against the caller's features, so the arm is compiled out and the conversion hits `unimplemented!()`. -/
-theorem to_dyn_arms_cover_fails_for_featureless_caller :
-    toDynLists .rcRefCell = true ∧ variantExists ["std", "alloc"] .rcRefCell = true ∧
-    toDynHasArm [] .rcRefCell = false ∧ ¬ ToDynArmsCover := by
-  refine ⟨by decide, by decide, by decide, ?_⟩
-  intro h
-  have := h [] ["std", "alloc"] .rcRefCell (by decide) (by decide)
-  revert this
-  decide
+/-- exactly one definition of the implementing macro is compiled into each rrtk build -/
+theorem to_dyn_one_definition_per_build :
+    ∀ r ∈ rrtkBuilds, (Gen.toDynDefs.filter (fun d => itemCfgHolds r d.1)).length = 1 := by decide
 
-/-- the same for the other guarded arm -/
-theorem to_dyn_arms_cover_fails_ptr_rw_lock :
-    toDynLists .ptrRwLock = true ∧ variantExists ["std", "alloc"] .ptrRwLock = true ∧
-    toDynHasArm [] .ptrRwLock = false ∧ toDynHasArm ["alloc"] .ptrRwLock = false := by
-  decide
-
-/-- consequence at the handle level: in a featureless caller, `to_dyn!` of an `Rc<RefCell<_>>` Reference panics -/
-theorem to_dyn_panics_for_featureless_caller :
-    (RefCase.init .rcRefCell).toDyn [] 0 = some (.error .unimpl) :=
-  (to_dyn_succeeds_iff_arm [] (RefCase.init .rcRefCell) 0 (by decide)).2 (by decide)
-
-/-- what IS true for every caller: a listed variant has a usable arm iff the caller declares the arm's guard feature
-(none needed for `Ptr`, `alloc` for `RcRefCell`, `std` for `PtrRwLock`) -/
-theorem to_dyn_arm_iff_caller_feature (callerFeats : List String) :
-    toDynHasArm callerFeats .ptr = true ∧
-    toDynHasArm callerFeats .rcRefCell = callerFeats.contains "alloc" ∧
-    toDynHasArm callerFeats .ptrRwLock = callerFeats.contains "std" := by
-  simp [toDynHasArm, Gen.toDynArms, RefVariant.name, featOn]
+example : toDynLists .rcRefCell = true ∧ variantExists ["alloc"] .rcRefCell = true ∧
+    toDynHasArmIn [] ["alloc"] .rcRefCell = true := by decide
 
 /-- the macro lists exactly `Ptr`, `RcRefCell`, `PtrRwLock`; `PtrMutex`, `ArcRwLock`, `ArcMutex` have no arm at all
-(so the property does not require them to convert — and they never do, for any caller) -/
+(so the property does not require them to convert — and they never do) -/
 theorem to_dyn_unlisted_variants :
     toDynLists .ptr = true ∧ toDynLists .rcRefCell = true ∧ toDynLists .ptrRwLock = true ∧
     toDynLists .ptrMutex = false ∧ toDynLists .arcRwLock = false ∧ toDynLists .arcMutex = false := by
   decide
+theorem to_dyn_unlisted_never_convert (callerFeats rrtkFeats : List String) :
+    toDynHasArmIn callerFeats rrtkFeats .ptrMutex = false ∧ toDynHasArmIn callerFeats rrtkFeats .arcRwLock = false ∧
+    toDynHasArmIn callerFeats rrtkFeats .arcMutex = false := by
+  simp [toDynHasArmIn, Gen.toDynDefs, RefVariant.name, featOn]
 
-theorem to_dyn_unlisted_never_convert (callerFeats : List String) :
-    toDynHasArm callerFeats .ptrMutex = false ∧ toDynHasArm callerFeats .arcRwLock = false ∧
-    toDynHasArm callerFeats .arcMutex = false := by
-  simp [toDynHasArm, Gen.toDynArms, RefVariant.name, featOn]
+/-- every arm names a variant of the enum, and a definition only has arms for variants that exist in the builds it is
+compiled into -/
+theorem to_dyn_arms_are_variants :
+    ∀ r ∈ rrtkBuilds, ∀ d ∈ Gen.toDynDefs, itemCfgHolds r d.1 = true →
+      ∀ a ∈ d.2, Gen.refVariants.any (fun x => x.1 == a.1 && (x.2 == "" || rrtkFeatOn r x.2)) = true := by decide
 
-/-- every listed variant is a variant of the enum, under the same guard as the enum variant -/
-theorem to_dyn_arms_are_variants : ∀ a, a ∈ Gen.toDynArms → a ∈ Gen.refVariants := by
-  decide
+/-! ### regression record of the repaired defect (F3)
+
+Before the fix there was a single definition whose arms carried `#[cfg(feature = …)]` INSIDE the exported macro body.
+`hasArmWith` evaluates an arbitrary table; on the old table the full-strength clause fails for a calling crate that
+declares no features. -/
+def toDynDefsPrefix : List (List (String × Bool) × List (String × String)) :=
+  [([], [("Ptr", ""), ("RcRefCell", "alloc"), ("PtrRwLock", "std")])]
+def hasArmWith (defs : List (List (String × Bool) × List (String × String))) (callerFeats rrtkFeats : List String)
+    (v : RefVariant) : Bool :=
+  defs.any (fun d => itemCfgHolds rrtkFeats d.1 && d.2.any (fun a => a.1 == v.name && featOn callerFeats a.2))
+theorem hasArmWith_current (c r : List String) (v : RefVariant) :
+    hasArmWith Gen.toDynDefs c r v = toDynHasArmIn c r v := rfl
+/-- the old table: a featureless caller of an rrtk built with std gets no arm for `RcRefCell` (→ `unimplemented!()`),
+while a caller that happens to declare `alloc` does -/
+theorem to_dyn_prefix_fails_for_featureless_caller :
+    hasArmWith toDynDefsPrefix [] ["std", "alloc"] .rcRefCell = false ∧
+    hasArmWith toDynDefsPrefix [] ["std", "alloc"] .ptrRwLock = false ∧
+    hasArmWith toDynDefsPrefix ["alloc"] ["std", "alloc"] .rcRefCell = true ∧
+    hasArmWith toDynDefsPrefix [] ["std", "alloc"] .ptr = true := by decide
+
+/-- consequence at the handle level for the current tree: `to_dyn!` of an `Rc<RefCell<_>>` Reference succeeds in a
+featureless caller -/
+theorem to_dyn_succeeds_for_featureless_caller :
+    ∃ c', (RefCase.init .rcRefCell).toDyn [] 0 = some (.ok c') :=
+  (to_dyn_succeeds_iff_arm [] (RefCase.init .rcRefCell) 0 (by decide)).1 (by decide)
 
 end Rrtk.Thm.C17
